@@ -216,6 +216,8 @@ class World(object):
         self.pathform = None     # 'path' / 'mixed': file_dep / targets given as pathlib.Path objects
         self.ckcls = None        # 'module' / 'nested': user-defined subclasses of the two checkers (see user_checker)
         self.hashseed = None     # not None: every doit invocation in a fresh interpreter, PYTHONHASHSEED varied
+        self.objlife = None      # 'module' / 'task': uptodate helper OBJECTS outlive a command (see _uptodate)
+        self._objs = {}
 
     def tick(self):
         """a fresh real mtime.  The code under test may only compare mtimes for equality, so the real mtimes need
@@ -263,7 +265,20 @@ class World(object):
         return name
 
     # -- task namespace for ModuleTaskLoader
-    def _uptodate(self, item):
+    def _uptodate(self, item, t=None):
+        """`objlife`: the uptodate item OBJECTS (result_dep, config_changed, a user calculator, callables, tuples) are
+        created once and put into the task dicts of every later load, as objects defined at the top of a dodo module
+        are when doit is used as a library (DoitMain(...).run twice, doit.api.run_tasks, %doit): 'module' = one object
+        per distinct item, shared by all tasks and all commands of the history; 'task' = one object per (task, item).
+        Their meaning is the same as that of fresh objects (model items unchanged)."""
+        if not self.objlife:
+            return self._make_uptodate(item)
+        key = json.dumps(item if self.objlife == 'module' else [t, item])
+        if key not in self._objs:
+            self._objs[key] = self._make_uptodate(item)
+        return self._objs[key]
+
+    def _make_uptodate(self, item):
         from doit import tools
         from doit.task import result_dep
         kind = item[0]
@@ -345,7 +360,7 @@ class World(object):
             def creator(d=d, t=t, action=action):
                 td = {'actions': [action], 'file_dep': [world._spell(fname(p), t + i) for i, p in enumerate(d['deps'])],
                       'targets': [world._spell(fname(p), t + i + 1) for i, p in enumerate(d['targets'])],
-                      'uptodate': [world._uptodate(i) for i in d['uptodate']]}
+                      'uptodate': [world._uptodate(i, t) for i in d['uptodate']]}
                 if d.get('task_dep'):
                     td['task_dep'] = [tname(x) for x in d['task_dep']]
                 if d.get('getargs') is not None:
@@ -500,6 +515,7 @@ def run_history(case, stop_on_crash=True):
     w.subsec = bool(case.get('subsec'))
     w.links = case.get('links')
     w.pathform = case.get('pathform')
+    w.objlife = case.get('objlife') if case.get('hashseed') is None else None
     obs = []
     for op in case['ops']:
         kind = op[0]
@@ -1026,6 +1042,21 @@ GROUP_SCRIPT = [('run', None), ('run', None), ('run', None), ('edit', 'main'), (
                 ('edit', 'src0'), ('run', None), ('run', None), ('touch', 'main'), ('run', None), ('run', None)]
 
 
+def _held(case, factory):
+    """`objlife` on a scenario case: the uptodate helper object is created ONCE (first load) and the same object is put
+    into the task dict of every later load / command of the process (an object defined at the top of a dodo module when
+    doit is used as a library); without the key: a fresh object per load."""
+    if not case.get('objlife'):
+        return factory
+    made = []
+
+    def get(*a):
+        if not made:
+            made.append(factory(*a))
+        return made[0]
+    return get
+
+
 def _scn_group(case):
     """a task generator `grp` yielding `subs` sub-tasks (0 = an EMPTY group; sub-task i: file_dep [src<i>], its action
     returns a string result that changes when src<i> is edited) and two consumers with a file_dep of their own:
@@ -1037,8 +1068,11 @@ def _scn_group(case):
     cons = ['report', 'summary']
     names = subs + cons
 
+    from doit.task import result_dep as _rd
+    grp_dep = _held(case, lambda: _rd('grp'))
+
     def mk(state):
-        from doit.task import result_dep
+        result_dep = lambda name: grp_dep()
 
         def task_grp():
             for i in range(k):
@@ -1154,8 +1188,11 @@ def _scn_dictres(case):
             return {'items': [1, k], 'name': 'x'}
         return 'value-%d' % k
 
+    from doit.task import result_dep as _rd
+    src_dep = _held(case, lambda: _rd('src'))
+
     def mk(state):
-        from doit.task import result_dep
+        result_dep = lambda name: src_dep()
         return {'task_src': lambda: {'actions': [lambda: result(state)]},
                 'task_report': lambda: {'actions': [lambda: True], 'file_dep': ['main'], 'uptodate': [result_dep('src')]},
                 'task_summary': lambda: {'actions': [lambda v=None: True], 'file_dep': ['main'],
@@ -1304,9 +1341,19 @@ def _scn_utdtime(case):
                 return sorted(o) if isinstance(o, (set, frozenset)) else _json.JSONEncoder.default(self, o)
         holder['cfg'] = {'b': {3, 1, 2}, 'a': {'y': [1, {'k': 2}], 'x': None}}
         item = lambda state: tools.config_changed(holder['cfg'], encoder=SetEncoder)
-        calls['reorder'] = lambda put, state: holder.__setitem__('cfg', {'a': {'x': None, 'y': [1, {'k': 2}]}, 'b': {2, 3, 1}})
-        calls['change'] = lambda put, state: holder.__setitem__('cfg', {'a': {'x': None, 'y': [1, {'k': 3}]}, 'b': {2, 3, 1}})
+
+        def setcfg(new):
+            if case.get('objlife'):
+                # the object holds the dict: a module-level configuration dict is changed in place
+                holder['cfg'].clear()
+                holder['cfg'].update(new)
+            else:
+                holder['cfg'] = new
+        calls['reorder'] = lambda put, state: setcfg({'a': {'x': None, 'y': [1, {'k': 2}]}, 'b': {2, 3, 1}})
+        calls['change'] = lambda put, state: setcfg({'a': {'x': None, 'y': [1, {'k': 3}]}, 'b': {2, 3, 1}})
         script = [RUN, RUN, ('call', 'reorder'), RUN, ('call', 'change'), RUN, RUN, ('edit', 'main'), RUN, RUN]
+
+    item = _held(case, item)
 
     def mk(state):
         return {'task_t': lambda: {'actions': [lambda: True], 'file_dep': ['main'], 'uptodate': [item(state)]}}
@@ -1326,6 +1373,37 @@ def odd_cases(full):
                         continue
                     out.append({'kind': kind, 'variant': variant, 'backend': b, 'checker': ck, 'par': None,
                                 'ntasks': 1, 'npaths': 1, 'ops': []})
+    return out
+
+
+def objlife_scenarios(full):
+    """opt-in (run_property(objlife_share > 0)): the scenario families whose uptodate item is a helper OBJECT of doit
+    (tools.timeout, check_timestamp_unchanged, config_changed(dict, encoder=), result_dep on a task / on a group) with
+    ONE object that lives across all commands of the script (one process), while what it watches changes in between"""
+    out = []
+    n = 0
+    for variant in UTDTIME_VARIANTS:
+        for ck in CHECKERS:
+            for b in BACKENDS:
+                n += 1
+                if not full and b != BACKENDS[(n // 3) % 3]:
+                    continue
+                out.append({'kind': 'utdtime', 'variant': variant, 'backend': b, 'checker': ck, 'par': None,
+                            'ntasks': 1, 'npaths': 1, 'ops': [], 'objlife': 'module'})
+    for variant in DICTRES_VARIANTS:
+        for b in BACKENDS:
+            n += 1
+            if not full and variant not in ('string', 'tuple') and n % 3:
+                continue
+            out.append({'kind': 'dictres', 'variant': variant, 'backend': b, 'checker': CHECKERS[n % 2], 'par': None,
+                        'ntasks': 3, 'npaths': 1, 'ops': [], 'objlife': 'module'})
+    for subs in (0, 1, 2):
+        for b in BACKENDS:
+            n += 1
+            if not full and subs == 0 and n % 3:
+                continue
+            out.append({'kind': 'group', 'backend': b, 'checker': CHECKERS[n % 2], 'subs': subs, 'par': None,
+                        'ntasks': subs + 3, 'npaths': 2, 'ops': [], 'objlife': 'module'})
     return out
 
 
@@ -1453,6 +1531,13 @@ def evaluate_calc(case):
 
 
 def render_calc(case):
+    out = _render_calc(case)
+    if case.get('objlife'):
+        out.insert(1, 'ONE process; the uptodate helper object is created once and reused in the task dicts of every command')
+    return out
+
+
+def _render_calc(case):
     if case.get('kind') in ('oddfiles', 'utdtime'):
         scn = SCENARIOS[case['kind']](case)
         out = ['%s scenario (%s): backend=%s checker=%s' % (case['kind'], case['variant'], case['backend'], case['checker']),
@@ -1528,6 +1613,8 @@ def render(case):
         extra += ' symlinks=%s' % [fname(p) for p in case['links']]
     if case.get('ckcls'):
         extra += ' checker-classes=user-defined(%s)' % case['ckcls']
+    if case.get('objlife'):
+        extra += ' uptodate-objects-live-across-commands(one per %s)' % ('distinct item' if case['objlife'] == 'module' else 'task and item')
     if case.get('hashseed') is not None:
         extra += ' (every doit invocation in a fresh interpreter, PYTHONHASHSEED=%d+k)' % case['hashseed']
     out = ['backend=%s checker=%s tasks=%d files=%d%s' % (case['backend'], case['checker'], case['ntasks'],
@@ -2124,7 +2211,7 @@ def nontrivial(case, v):
 
 def strip(case):
     return {k: case[k] for k in ('backend', 'checker', 'ntasks', 'npaths', 'ops', 'hashseed', 'scramble', 'kind', 'order', 'consumers',
-                                    'par', 'subs', 'ckcls', 'variant', 'subsec', 'links', 'pathform') if k in case}
+                                    'par', 'subs', 'ckcls', 'variant', 'subsec', 'links', 'pathform', 'objlife') if k in case}
 
 
 def failing_predicate(prop):
@@ -2153,14 +2240,15 @@ def process_batch(arg):
         st.traces += 1
         st.count('origin:' + origin)
         st.count('mtimes:' + ('non-monotone' if case.get('scramble') else 'monotone'))
-        for knob in ('pathform', 'ckcls'):
+        for knob in ('pathform', 'ckcls', 'objlife'):
             if case.get(knob):
                 st.count('knob:%s:%s' % (knob, case[knob]))
         for knob in ('subsec', 'links'):
             if case.get(knob):
                 st.count('knob:' + knob)
         if case.get('kind') in SCENARIOS:
-            st.count('scenario(monitors-only):%s:%s' % (case['kind'], case.get('variant') or case.get('order') or case.get('subs')))
+            st.count('scenario(monitors-only):%s:%s%s' % (case['kind'], case.get('variant') or case.get('order') or case.get('subs'),
+                                                           '+objects-live-across-commands' if case.get('objlife') else ''))
         for op in case['ops']:
             if op[0] == 'redefine':
                 for it in op[2]['uptodate']:
@@ -2234,7 +2322,7 @@ def process_batch(arg):
 
 
 def run_property(ctx, prop, n_random, exh_len, macro_len, parallel_share=0.0, n_info=0, sub_share=0.02,
-                 shared_len=3, utd_len=3):
+                 shared_len=3, utd_len=3, objlife_share=0.0):
     """corpus first, then the small-scope exhaustive tier, then random histories -- in rounds, until everything is
     done or the time budget of the tier is used up (what was left out is written to the evidence)"""
     items = []
@@ -2257,6 +2345,11 @@ def run_property(ctx, prop, n_random, exh_len, macro_len, parallel_share=0.0, n_
     ctx.extra['odd_files_and_time_item_scenarios'] = len(odd)
     for c in odd:
         items.append((c['kind'] + '-scenario', c))
+    if objlife_share:
+        held = objlife_scenarios(full)
+        ctx.extra['helper_objects_living_across_commands_scenarios'] = len(held)
+        for c in held:
+            items.append((c['kind'] + '-scenario', c))
     # the scripted scenario families are few and cheap: they run before the (larger) corpus
     for name, c in corpus:
         items.append(('corpus', c))
@@ -2282,6 +2375,12 @@ def run_property(ctx, prop, n_random, exh_len, macro_len, parallel_share=0.0, n_
             c = gen_case(r, parallel=par, rich=True)
             if not par and r.random() < sub_share:
                 c['hashseed'] = r.randrange(1, 1000)
+            if objlife_share and c.get('hashseed') is None:
+                # opt-in (own random stream: the histories themselves are unchanged): the uptodate helper objects of
+                # the history are created once and live across all its commands
+                ro = random_for(ctx, 'objlife%d' % i)
+                if ro.random() < objlife_share:
+                    c['objlife'] = ro.choice(['module', 'module', 'task'])
             rnd.append(('random-parallel' if par else 'random', c))
     for i in range(n_info):
         rnd.append(('informational', gen_case(random_for(ctx, 'info%d' % i), informational=True)))
